@@ -274,6 +274,7 @@ type Actor struct {
 	Env   map[string]string
 	// FailWriteAfter > 0: the connection of the next call breaks after the platform has written this many bytes of
 	// its answer (the process is about to die while a large event is being sent to it); one-shot
+	ncalls         int
 	FailWriteAfter int
 	Phase          string // World.Phase at launch
 	PhaseGen       int    // 1-based ordinal of this launch among the launches of the program in that phase
@@ -354,6 +355,11 @@ func (a *Actor) do(kind, method, path string, hdr map[string]string, body []byte
 // what the reader will have produced in total.
 func (a *Actor) doR(kind, method, path string, hdr map[string]string, body []byte, rd io.Reader) *Call {
 	a.alive()
+	// a script that is answered at once for ever (an emulator that no longer parks next) must come to rest: the
+	// oracle then judges what was observed, instead of the execution running into the step horizon
+	if a.ncalls++; a.ncalls > 300 {
+		panic(procGone)
+	}
 	w := a.W
 	c := &Call{Actor: a.Name, Gen: a.Gen, Pid: a.P.Pid, Kind: kind, Path: path, Issued: sched.StepNo(), IssuedNs: sched.NowNs(), Answered: -1, Sent: body, IssuedAt: sched.StampNow()}
 	w.Calls = append(w.Calls, c)
@@ -630,7 +636,10 @@ func (w *World) Invoke(payload []byte, hdr map[string]string) *Invoke {
 // EchoRuntime is a well-behaved runtime: it answers every invocation with f(event).
 func EchoRuntime(f func(ev []byte) []byte) func(rt *Actor) {
 	return func(rt *Actor) {
-		for {
+		for it := 0; ; it++ {
+			if it > 64 {
+				rt.Stall() // an emulator that answers every next at once must not make the script spin for ever
+			}
 			n := rt.Next()
 			if n.Status != 200 {
 				rt.Stall()
@@ -654,7 +663,10 @@ func LoopExt(events []string, stayOnShutdown bool) func(x *Actor) {
 		if r.Status != 200 {
 			x.Stall()
 		}
-		for {
+		for it := 0; ; it++ {
+			if it > 64 {
+				x.Stall() // see EchoRuntime
+			}
 			ev := x.ExtNext()
 			if ev.Status != 200 {
 				x.Stall()
